@@ -29,6 +29,13 @@ func allReaders() []readerEntry {
 		_, err := astisub.ReadFromSTL(bytes.NewReader(b), astisub.STLOptions{IgnoreTimecodeStartOfProgramme: true})
 		return err
 	}})
+	for i, o := range []astisub.SSAOptions{{}, {OnUnknownSectionName: func(string) {}}, {OnInvalidLine: func(string) {}}} {
+		o := o
+		rs = append(rs, readerEntry{fmt.Sprintf("ssa-options-%d", i), ".ssa", func(b []byte) error {
+			_, err := astisub.ReadFromSSAWithOptions(bytes.NewReader(b), o)
+			return err
+		}})
+	}
 	for _, o := range []astisub.TeletextOptions{{}, {Page: 888}, {Page: 100, PID: 256}, {PID: 1}} {
 		o := o
 		rs = append(rs, readerEntry{fmt.Sprintf("teletext(page=%d,pid=%d)", o.Page, o.PID), ".ts", func(b []byte) error {
@@ -59,7 +66,7 @@ func guarded(f func(), limit time.Duration) string {
 var mutTokens = map[string][]string{
 	"srt":    {"-->", "\n\n", "00:00:01,000 --> ", "<b>", "</", "<font color=", "\r", ",", ":", "\xff"},
 	"webvtt": {"-->", "WEBVTT", "\n\n", "NOTE ", "STYLE", "Region: ", "Region: id", "region:", "align:", "X-TIMESTAMP-MAP=", "LOCAL:", "MPEGTS:", "<v ", "<c.", "<00:00:01.000>", "00:01.000 --> ", "\t", "::cue", "}", "id=", "="},
-	"ssa":    {"[Events]", "[V4 Styles]", "[V4+ Styles]", "[Script Info]", "Format: ", "Style: ", "Dialogue: ", "Comment: ", ",", "\\N", "{\\", "}", "&H", ":", "Marked=", "-1", "Name", "Text", "Start", "End", ";"},
+	"ssa":    {"[Events]", "[V4 Styles]", "[V4+ Styles]", "[Script Info]", "Format: ", "Style: ", "Dialogue: ", "Comment: ", ",", "\\N", "{\\", "}", "&H", ":", "Marked=", "-1", "Name", "Text", "Start", "End", ";", "\nNote: not an event\n", "\nPicture: 1,2\n", "\n[Unknown Section]\n", "\nno colon here\n", "\n!: bang\n"},
 	"ttml":   {"<p", "</p>", "<br/>", "<span", "begin=\"", "end=\"", "style=\"", "region=\"", "<tt", "</tt>", "<div>", "<body>", "<head>", "<styling>", "<layout>", "xml:id=\"", "00:00:01", "1.5s", "10f", "100t", "&amp;", "<!--", "<![CDATA[", "\"", "ttp:frameRate=\"25\"", "ttp:tickRate=\"0\""},
 	"stl":    {"STL25.01", "STL30.01", "STL99.01", "        ", "00000000", "\x8a", "\x8f", "\x0b", "\x0a", "\xc1", "\xfe", "\xff", "\x00", "850"},
 }
@@ -120,7 +127,7 @@ func mutate(r *rng, f string, doc []byte, other []byte) []byte {
 }
 
 func suiteTotality(R *runner, r *rng) {
-	R.rule("totality: every reader (6 readers x option values, and the extension-dispatching opener) on valid documents of every format, on structure-aware mutations / truncations / splices of them (format keywords inserted, lines deleted, fixed-width fields overwritten), on documents of the wrong format and on arbitrary bytes, under recover() and a 5 s watchdog; every writer on cue lists assembled from the public types with every optional part (metadata, maps, styles, regions, inline attributes, lines, runs) possibly absent and hostile text (leading combining marks, control characters, non-BMP, invalid UTF-8); oracle: no panic, no hang; non-trivial = the call returned a value rather than an error")
+	R.rule("totality: every reader (6 readers x option values incl. SSA callbacks nil / partly set, and the extension-dispatching opener) on valid documents of every format, on structure-aware mutations / truncations / splices of them (format keywords inserted, lines deleted, fixed-width fields overwritten), on documents of the wrong format and on arbitrary bytes, under recover() and a 5 s watchdog; every writer on cue lists assembled from the public types with every optional part (metadata, maps, styles, regions, inline attributes, lines, runs) possibly absent, map keys differing from the element identifiers, nil map elements and hostile text (leading combining marks, control characters, non-BMP, invalid UTF-8); oracle: no panic, no hang; non-trivial = the call returned a value rather than an error")
 	docs := sampleDocs(r, 3, false)
 	docs = append(docs, tsSampleDocs(r)...)
 	readers := allReaders()
@@ -155,6 +162,8 @@ func suiteTotality(R *runner, r *rng) {
 			return "stl"
 		case strings.HasPrefix(name, "teletext"):
 			return "ts"
+		case strings.HasPrefix(name, "ssa"):
+			return "ssa"
 		}
 		return name
 	}
@@ -215,12 +224,15 @@ func suiteTotality(R *runner, r *rng) {
 		{"ttml", []byte(`<tt xmlns="http://www.w3.org/ns/ttml"><body><div><p begin="1s" end="2s" style="nope">x</p></div></body></tt>`)},
 		{"ssa", []byte("[Events]\nDialogue: x\n")}, {"ssa", []byte("[V4 Styles]\nFormat: Name\nStyle:\n")},
 		{"ssa", []byte("[Events]\nFormat: Start, End, Text\nDialogue: 0:00:01.00\n")},
+		{"ssa", []byte("[Events]\nFormat: Start, End, Text\nNote: not an event\nDialogue: 0:00:01.00,0:00:02.00,x\n")},
+		{"ssa", []byte("[Nope]\nx\n[Events]\nno colon\nFormat: Start, End, Text\nno colon\n")},
+		{"ssa", []byte("[V4 Styles]\nno colon\nFormat: Name\nOther: x\n")},
 		{"stl", gsi("STL99.01", "00000000", "00000000")}, {"stl", gsi("        ", "00000000", "00000000")},
 		{"stl", gsi("STL25.01", "0000    ", "00000000")}, {"stl", gsi("STL25.01", "00000000", "0       ")},
 		{"stl", gsi("STL25.01", "        ", "        ")}, {"stl", gsi("STL25.01", "00000000", "00000000")[:1024+60]},
 	} {
 		for _, rd := range readers {
-			if rd.name == c.reader || (c.reader == "stl" && rd.name == "stl-ignore-tcp") {
+			if rd.name == c.reader || (c.reader == "stl" && rd.name == "stl-ignore-tcp") || (c.reader == "ssa" && strings.HasPrefix(rd.name, "ssa-options")) {
 				run(rd, c.data, "total.read.corpus", "corpus")
 			}
 		}
@@ -282,10 +294,18 @@ func suiteTotality(R *runner, r *rng) {
 func describeRich(s *astisub.Subtitles) []string {
 	var o []string
 	for id, st := range s.Styles {
-		o = append(o, fmt.Sprintf("style %s inline_nil=%v parent=%v", id, st.InlineStyle == nil, st.Style != nil))
+		if st == nil {
+			o = append(o, fmt.Sprintf("style key %s -> nil", id))
+			continue
+		}
+		o = append(o, fmt.Sprintf("style key %s id %s inline_nil=%v parent=%v", id, st.ID, st.InlineStyle == nil, st.Style != nil))
 	}
 	for id, rg := range s.Regions {
-		o = append(o, fmt.Sprintf("region %s inline_nil=%v style=%v", id, rg.InlineStyle == nil, rg.Style != nil))
+		if rg == nil {
+			o = append(o, fmt.Sprintf("region key %s -> nil", id))
+			continue
+		}
+		o = append(o, fmt.Sprintf("region key %s id %s inline_nil=%v style=%v", id, rg.ID, rg.InlineStyle == nil, rg.Style != nil))
 	}
 	for i, it := range s.Items {
 		d := fmt.Sprintf("cue %d [%v,%v) lines=%d inline_nil=%v region=%v style=%v", i, it.StartAt, it.EndAt, len(it.Lines), it.InlineStyle == nil, it.Region != nil, it.Style != nil)
